@@ -132,3 +132,30 @@ Fixpoint t_run (c : tcfg) (s : tstate) (ops : list top) : tstate * list (option 
 Definition t_start (c : tcfg) : tstate := mkTSt (t_init c) [].
 Definition t_final (c : tcfg) (ops : list top) : tstate := fst (t_run c (t_start c) ops).
 Definition t_observe (c : tcfg) (ops : list top) : list (option Z) := snd (t_run c (t_start c) ops).
+
+(* ------------------------------------------------------------------------------------------- *)
+(* MemoryPool on its own (src/memory/pool.rs: allocate / deallocate with PoolConfig.max_chunks) *)
+(* ------------------------------------------------------------------------------------------- *)
+Inductive mop := MAl | MFr (k : N).
+Record mstate := mkMS { ms_p : mpool; ms_next : N; ms_live : list chunk }.
+(* observation: allocate -> pool hit (1) / new chunk (0), serial of the chunk; deallocate -> kept (1) / released (0) *)
+Definition m_step (s : mstate) (o : mop) : mstate * list (option Z) :=
+  match o with
+  | MAl => let '(ch, hit, p', nx) := mp_alloc 0 (ms_p s) (ms_next s) in
+           (mkMS p' nx (ms_live s ++ [ch]), [zn (if hit then 1 else 0); zn (snd ch)])
+  | MFr k =>
+      match ms_live s with
+      | [] => (s, [])
+      | _ => let i := N.to_nat (k mod nlen (ms_live s)) in
+             let '(kept, p') := mp_free (ms_p s) (nth i (ms_live s) (O, 0)) in
+             (mkMS p' (ms_next s) (remove_nth i (ms_live s)), [zn (if kept then 1 else 0)])
+      end
+  end.
+Fixpoint m_run (s : mstate) (ops : list mop) : mstate * list (option Z) :=
+  match ops with
+  | [] => (s, [])
+  | o :: t => let '(s1, r) := m_step s o in let '(s2, rs) := m_run s1 t in (s2, r ++ rs)
+  end.
+Definition m_start (max : N) : mstate := mkMS (mkMP max []) 0 [].
+Definition m_final (max : N) (ops : list mop) : mstate := fst (m_run (m_start max) ops).
+Definition m_observe (max : N) (ops : list mop) : list (option Z) := snd (m_run (m_start max) ops).
